@@ -102,6 +102,9 @@ impl Bracket {
             complement: false,
             items: Vec::new(),
         };
+        // Whether the previous item is an unquoted hyphen, which is the only
+        // thing that can make a range with the items around it.
+        let mut after_hyphen = false;
         while let Some(pc) = i.next() {
             match pc {
                 PatternChar::Normal(']') if !bracket.items.is_empty() => return Some((bracket, i)),
@@ -120,7 +123,10 @@ impl Bracket {
                 }
                 c => bracket.items.push(Atom(Char(c.char_value()))),
             }
-            make_range(&mut bracket.items);
+            if after_hyphen {
+                make_range(&mut bracket.items);
+            }
+            after_hyphen = pc == PatternChar::Normal('-');
         }
         None
     }
@@ -271,6 +277,33 @@ mod tests {
                     BracketItem::Atom(BracketAtom::Char('1')),
                     BracketItem::Atom(BracketAtom::Char('2')),
                 ]
+            })]
+        );
+    }
+
+    #[test]
+    fn escaped_hyphen_in_bracket_expression_does_not_make_range() {
+        let ast = Ast::new(with_escape(r"[a\-c]"));
+        assert_eq!(
+            ast.atoms,
+            [Atom::Bracket(Bracket {
+                complement: false,
+                items: vec![
+                    BracketItem::Atom(BracketAtom::Char('a')),
+                    BracketItem::Atom(BracketAtom::Char('-')),
+                    BracketItem::Atom(BracketAtom::Char('c')),
+                ]
+            })]
+        );
+
+        let ast = Ast::new(with_escape(r"[\--a]"));
+        assert_eq!(
+            ast.atoms,
+            [Atom::Bracket(Bracket {
+                complement: false,
+                items: vec![BracketItem::Range(
+                    BracketAtom::Char('-')..=BracketAtom::Char('a')
+                )]
             })]
         );
     }
